@@ -70,9 +70,25 @@ def check_word(th, lru):
     """Expand one LRU; returns (violations, members)."""
     v = []
     try:
-        res = list(th.lru_variations(lru))
+        raw = th.lru_variations(lru)
+        res = raw
     except Exception as e:
         return [("expansion-failed", "expanding %s failed: %s: %s" % (L.show(lru), type(e).__name__, e))], []
+    # what a caller does with the returned list must not matter: reverse it, drop an entry,
+    # and expand again
+    snapshot = list(res)
+    try:
+        raw.reverse()  # the very object the helper returned
+        raw.pop()
+    except Exception:
+        pass
+    try:
+        again = list(th.lru_variations(lru))
+    except Exception as e:
+        return [("expansion-failed", "expanding %s a second time failed: %s: %s" % (L.show(lru), type(e).__name__, e))], []
+    res = snapshot
+    if again != snapshot:
+        v.append(("result-aliased", "expanding %s again after the caller modified the first result gives %s instead of %s" % (L.show(lru), [L.show(x) for x in again], [L.show(x) for x in snapshot])))
     if not res or res[0] != lru:
         v.append(("self-not-first", "expanding %s does not list it first: %s" % (L.show(lru), [L.show(x) for x in res])))
     if len(set(res)) != len(res):
